@@ -76,6 +76,17 @@ NEAR_MISS = [
     "forward fn g(x: int)->int;\nfn f(x: int)->int{g(x)}\nfn g(x: int)->str{'s'}\nlet r = f(1);",
     "fn outer()->()->(int){ forward fn b()->int; fn a()->int{ b() } fn b()->int{ 5 } a }\nlet r = outer()();",
     "fn outer()->()->(bool){ forward fn odd(n: int)->bool; fn even(n: int)->bool{ if(n == 0, true, odd(n - 1)) } fn odd(n: int)->bool{ if(n == 0, false, even(n - 1)) } ()->{ even(4) } }\nlet r = outer()();",
+    "forward fn foo(i: int)->int;\nfn getter()->(int)->(int){ foo }\nlet g = getter();\nlet y = g(1);\nfn foo(i: int)->int{ i + 1 }",
+    "fn main()->int{ forward fn foo(i: int)->int; fn getter()->(int)->(int){ foo } let g = getter(); let y = g(1); fn foo(i: int)->int{ i + 1 } y }",
+    "forward fn foo(i: int)->int;\nlet l = ()->{ foo };\nlet y = l()(1);\nfn foo(i: int)->int{ i + 1 }",
+    "forward fn foo(i: int)->int;\nfn w()->int{ let k = foo; k(1) }\nlet y = w();\nfn foo(i: int)->int{ i + 1 }",
+    "forward fn a(i: int)->int;\nforward fn b(i: int)->int;\nfn a(i: int)->int{ b(i) }\nlet x = a(1);\nfn b(i: int)->int{ i }",
+    "forward fn a(i: int)->int;\nforward fn b(i: int)->int;\nfn c(i: int)->int{ a(i) }\nfn a(i: int)->int{ b(i) }\nlet x = c(1);\nfn b(i: int)->int{ i }",
+    "forward fn pick(x: int)->int;\nforward fn pick(x: str)->int;\nfn use_int()->int{ pick(1) }\nfn pick(x: str)->int{ x.len() }\nlet r = use_int();\nfn pick(x: int)->int{ x }",
+    "let k = (i: int)->{ i % 3 };\nlet eq_ = k.to_eq();\nlet r = eq_(3, 6);",
+    "struct P(x: int)\nfn mk()->P{ P(7) }\nfn host()->str{ struct P(x: str)  let xs = [P('a'), mk()]; xs[1]::x }\nlet w = host();",
+    "struct P(x: int)\nfn mk()->P{ P(7) }\nfn host()->str{ struct P(x: str)  fn first(p: P)->str{ p::x }  first(mk()) }\nlet w = host();",
+    "let x = add{int, $}(1);", "let x = add{$, $, $}(1, 2);", "fn foo(x: Sequence<int>)->int{ x.len() }\nlet a = foo{Sequence<$>}([1, 2]);",
     "fn main()->int{ fn h()->int{ main() } 1 }", "let r = (()->{ 1 })();", "let r = [()->{1}][0]();", "let r = some((x: int)->{x}).value()('a');",
     "type I = int;\nlet x: I = 'a';", "type F = (int)->(int);\nlet f: F = (a: str)->{1};\nlet r = f(1);",
     "struct S(a: int)\nlet r = S('a')::a + 1;", "struct S(a: int)\nlet r = S(1, 2);", "struct S(a: int)\nlet r = S()::a;", "union U(a: int, b: str)\nlet r = U::a('x')!:a + 1;",
